@@ -1,7 +1,46 @@
-from sa import opcat, rules_template as T
+"""C03 - chain rule on any DAG, each recorded op contributes exactly once (structural part: traversal + accumulation discipline)."""
+from sa import opcat, rules_template as T, rules_engine as E
+
+
 def check(model, R, tier):
     ops, problems = opcat.catalogue(model)
     for q, why in problems:
-        R.incomplete_at('C03.PROP', q, why)
-    T.check_prop_attach(model, R, ops, 'C03')
-    return dict(explanation='x', assumptions=[], technique='x')
+        R.incomplete_at('C03.SUM-OVER-PATHS', q, why)
+    B = E.check_topo(model, R, 'C03')
+    E.check_once(model, R, 'C03', B)
+    E.check_identity(model, R, 'C03')
+    E.check_init_before_sweep(model, R, 'C03', B)
+    E.check_consume_release(model, R, 'C03', B)
+    # SUM-OVER-PATHS / MIXED: the accumulation discipline of all 48 ops (same rule instances as C01/C02.ACC, reported under C03)
+    sub = _Sub(R, 'C03.SUM-OVER-PATHS')
+    R.rule('C03.SUM-OVER-PATHS', 'every op adds (+=) its contribution into each operand\'s buffer, once per operand position, guarded by that operand\'s requires_grad; '
+                                 'list ops accumulate over all inputs; multi-output closures carry their own index', floor=48)
+    T.check_ops(model, sub, ops, 'C03x')
+    T.check_prop_attach(model, sub, [o for o in ops if o.multi_output], 'C03x')
+    R.analysed['ops'] = len(ops)
+    return dict(
+        explanation='Decides the code-shape part of the chain rule on DAGs: Tensor.backward builds a post-order (topological) list with a visited test-and-mark and sweeps it '
+                    'reversed, invoking each grad_fn at one call site once per node; nodes are keyed by identity; buffers exist before the sweep and are released only after use; '
+                    'all 48 ops accumulate with += per operand position under that operand\'s own requires_grad. Values of gradients are not decided.',
+        assumptions=['graphs are built only through the catalogued ops (children = operands)', 'CPython semantics of set membership by identity when __eq__/__hash__ are not overridden'],
+        technique='CFG dominance + idiom recognition of the traversal + template rules over the op catalogue')
+
+
+class _Sub:
+    """forwards ACC/BIND obligations of the template checker under the C03 rule name"""
+    def __init__(self, R, rule):
+        self.R, self.rulename = R, rule
+
+    def rule(self, *a, **k):
+        pass
+
+    def ob(self, rule, where, construct, ok, detail='', loc=''):
+        if rule.endswith('.ACC') or rule.endswith('.BIND') or rule.endswith('.ATTACH'):
+            return self.R.ob(self.rulename, where, construct, ok, detail, loc)
+        return ok
+
+    def incomplete_at(self, rule, where, why):
+        self.R.incomplete_at(self.rulename, where, why)
+
+    def note(self, t):
+        pass
